@@ -14,70 +14,97 @@
 (* node in slot 0 (received late).                                          *)
 (*                                                                         *)
 (* Offered blocks (all with a slot above the tip's, none in the future):    *)
-(*   child(s, ok|bad)  height+1 on the tip, by the generator of slot s;     *)
-(*                     bad = signed with another validator's key            *)
-(*   comp(s, ok|bad)   same height and parent as the tip                     *)
+(*   child(s, kind)    height+1 on the tip, by the generator of slot s       *)
+(*   comp(s, kind)     same height and parent as the tip                     *)
+(*   kind: "ok"    a valid block                                             *)
+(*         "bad"   signed with another validator's key                       *)
+(*         "lying" correctly signed by the slot's generator, which already   *)
+(*                 has a block on the node's chain (inside the BFT window)   *)
+(*                 and now claims maxHeightGenerated = that height - 1: the  *)
+(*                 header CONTRADICTS the generator's own earlier header     *)
+(*                 (LIP-0014), so the block is invalid - whichever branch    *)
+(*                 of the cascade it arrives through                         *)
 (* LIP-0014: comp is a tie break iff it is by another generator, the tip    *)
 (* was received outside its slot and comp is received within its own slot;  *)
 (* anything else at the tip's height is discarded.  C03: an offered block   *)
 (* that is rejected changes nothing - in particular not what the node       *)
 (* remembers about its tip.                                                 *)
+(*                                                                         *)
+(* pos: WHERE inside a wall-clock slot the steps of the behaviour happen:   *)
+(* "start" = in its first second, "end" = in its last second ("received     *)
+(* within its slot" is decided on whole seconds, so these are the boundary  *)
+(* values of the interval).  The model's verdicts do not depend on it - the *)
+(* replay places the steps accordingly.                                     *)
 (***************************************************************************)
 EXTENDS Integers, Sequences, TLC, Json
 CONSTANTS Ticks,      \* wall-clock slots 0 .. Ticks-1
           NVal,       \* round-robin: two slots have the same generator iff they differ by a multiple of NVal
-          MaxSteps, MaxRestart, DumpEvery
-VARIABLES now, height, tslot, recv, script
-vars == <<now, height, tslot, recv, script>>
+          MaxSteps, MaxRestart, DumpEvery,
+          Want        \* which complete scripts the dump keeps: "comp" (one with a competitor) | "lying" (one with a contradicting block)
+VARIABLES now, height, tslot, recv, script,
+          chain,      \* slots of the blocks on the node's chain above genesis, oldest first (who generated what)
+          pos
+vars == <<now, height, tslot, recv, script, chain, pos>>
 None == -9
+Kinds == {"ok", "bad", "lying"}
 
-Init == now = 0 /\ height = 0 /\ tslot = -1 /\ recv = 0 /\ script = <<>>
+Init == now = 0 /\ height = 0 /\ tslot = -1 /\ recv = 0 /\ script = <<>> /\ chain = <<-1>> /\ pos \in {"start", "end"}
 
 TipLate == recv # None /\ recv # tslot
 SameGen(s) == (s - tslot) % NVal = 0
 Slots == {s \in 0..(Ticks - 1) : tslot < s /\ s <= now}
 
-Step(op, s, ok, exp) == [op |-> op, s |-> s, ok |-> ok, exp |-> exp, now |-> now, late |-> TipLate]
+\* the generator of slot s has a block among the first n blocks of the chain
+Forged(s, n) == \E i \in 1..n : (chain[i] - s) % NVal = 0
+Step(op, s, kind, exp) == [op |-> op, s |-> s, ok |-> kind = "ok", kind |-> kind, exp |-> exp, now |-> now, late |-> TipLate, pos |-> pos]
 More == Len(script) < MaxSteps
 
 Tick == /\ More /\ now < Ticks - 1 /\ now' = now + 1
-        /\ script' = Append(script, Step("tick", 0, TRUE, "none"))
-        /\ UNCHANGED <<height, tslot, recv>>
+        /\ script' = Append(script, Step("tick", 0, "ok", "none"))
+        /\ UNCHANGED <<height, tslot, recv, chain, pos>>
 
-Child(s, ok) ==
+Child(s, kind) ==
   /\ More /\ s \in Slots
-  /\ IF ok THEN /\ height' = height + 1 /\ tslot' = s /\ recv' = now
-                /\ script' = Append(script, Step("child", s, ok, "accept"))
-           ELSE /\ UNCHANGED <<height, tslot, recv>>
-                /\ script' = Append(script, Step("child", s, ok, "none"))
-  /\ UNCHANGED now
+  /\ (kind = "lying" => Forged(s, Len(chain)))
+  /\ IF kind = "ok" THEN /\ height' = height + 1 /\ tslot' = s /\ recv' = now /\ chain' = Append(chain, s)
+                        /\ script' = Append(script, Step("child", s, kind, "accept"))
+           ELSE /\ UNCHANGED <<height, tslot, recv, chain>>
+                /\ script' = Append(script, Step("child", s, kind, "none"))
+  /\ UNCHANGED <<now, pos>>
 
 IsTieBreak(s) == ~SameGen(s) /\ TipLate /\ s = now
-Comp(s, ok) ==
+Comp(s, kind) ==
   /\ More /\ s \in Slots /\ height > 0          \* a competitor of the initial tip would need a second branch in the set-up
-  /\ IF IsTieBreak(s) /\ ok
-     THEN /\ tslot' = s /\ recv' = now /\ UNCHANGED height
-          /\ script' = Append(script, Step("comp", s, ok, "replace"))
-     ELSE /\ UNCHANGED <<height, tslot, recv>>
-          /\ script' = Append(script, Step("comp", s, ok, "none"))
-  /\ UNCHANGED now
+  /\ (kind = "lying" => Forged(s, Len(chain) - 1) /\ ~SameGen(s))   \* its own earlier block lies BELOW the tip
+  /\ IF IsTieBreak(s) /\ kind = "ok"
+     THEN /\ tslot' = s /\ recv' = now /\ UNCHANGED height /\ chain' = [chain EXCEPT ![Len(chain)] = s]
+          /\ script' = Append(script, Step("comp", s, kind, "replace"))
+     ELSE /\ UNCHANGED <<height, tslot, recv, chain>>
+          /\ script' = Append(script, Step("comp", s, kind, "none"))
+  /\ UNCHANGED <<now, pos>>
 
 NRestart == LET F[i \in 0..Len(script)] == IF i = 0 THEN 0 ELSE F[i - 1] + (IF script[i].op = "restart" THEN 1 ELSE 0) IN F[Len(script)]
 Restart == /\ More /\ NRestart < MaxRestart /\ recv' = None
-           /\ script' = Append(script, Step("restart", 0, TRUE, "none"))
-           /\ UNCHANGED <<now, height, tslot>>
+           /\ script' = Append(script, Step("restart", 0, "ok", "none"))
+           /\ UNCHANGED <<now, height, tslot, chain, pos>>
 
-Next == Tick \/ Restart \/ \E s \in 0..(Ticks - 1), ok \in BOOLEAN : Child(s, ok) \/ Comp(s, ok)
+Next == Tick \/ Restart \/ \E s \in 0..(Ticks - 1), kind \in Kinds : Child(s, kind) \/ Comp(s, kind)
 Spec == Init /\ [][Next]_vars
 
 (* ------------------------------- properties ------------------------------ *)
-TypeOK == now \in 0..(Ticks - 1) /\ tslot \in -1..(Ticks - 1) /\ tslot <= now /\ (recv = None \/ (recv >= tslot /\ recv <= now))
+TypeOK == /\ now \in 0..(Ticks - 1) /\ tslot \in -1..(Ticks - 1) /\ tslot <= now /\ (recv = None \/ (recv >= tslot /\ recv <= now))
+          /\ Len(chain) = height + 1 /\ chain[Len(chain)] = tslot
+          /\ \A i \in 1..(Len(chain) - 1) : chain[i] < chain[i + 1]
 \* a tip that arrived within its slot is never replaced by a tie break (action property over the script)
 InTimeTipStays == \A i \in 1..Len(script) : script[i].exp = "replace" => script[i].late
 \* rejected blocks change nothing (by construction of the actions; stated so that a change of the model is noticed)
-RejectedChangesNothing == [][\A s \in 0..(Ticks - 1) : (Child(s, FALSE) \/ (Comp(s, FALSE))) => UNCHANGED <<height, tslot, recv>>]_vars
+RejectedChangesNothing == [][\A s \in 0..(Ticks - 1), kind \in Kinds \ {"ok"} : (Child(s, kind) \/ Comp(s, kind)) => UNCHANGED <<height, tslot, recv, chain>>]_vars
+\* a header that contradicts its generator's earlier header on the chain never gets onto the chain (whatever the clock says)
+LyingNeverAccepted == \A i \in 1..Len(script) : script[i].kind = "lying" => script[i].exp = "none"
+
 
 HasComp == \E i \in 1..Len(script) : script[i].op = "comp"
-DumpInv == (DumpEvery > 0 /\ Len(script) = MaxSteps /\ HasComp /\ RandomElement(1..DumpEvery) = 1)
-             => PrintT(<<"DUMP", ToJson([script |-> script])>>)
+HasLying == \E i \in 1..Len(script) : script[i].kind = "lying"
+DumpInv == (DumpEvery > 0 /\ Len(script) = MaxSteps /\ (IF Want = "lying" THEN HasLying ELSE HasComp) /\ RandomElement(1..DumpEvery) = 1)
+             => PrintT(<<"DUMP", ToJson([script |-> script, nval |-> NVal])>>)
 =============================================================================
